@@ -81,3 +81,123 @@ def random_ty(rng, depth: int, leaves=None) -> Ty:
         if _ok(t):
             return t
     return ty.Cls(int)
+
+
+# ---------------------------------------------------------------------------
+# wide unions: many flattened members, around the size at which union implementations switch to indexed lookup;
+# literal members that are ==-equal (same hash) but of different type; optionally one non-literal member.
+
+COLLIDING_GROUPS = [
+    (), (1, True), (0, False), (prelude.Num.ONE, 1), (prelude.Num.TWO, 2), (prelude.Num.ONE, True),
+    (1, True, prelude.Num.ONE),
+]
+FILLER_FAMILIES = {
+    "ints": [3, 4, 5, 6, 7, 8, 9, 10, 11, 12, 13, 14, 15, 16, 17, 18],
+    "strs": ["a", "b", "c", "d", "e", "f", "g", "h", "i", "j", "k", "l", "m", "n", "o", "p"],
+    "mixed": ["a", 3, b"a", None, prelude.Color.RED, "ab", 255, b"ab", prelude.Color.GREEN, -1, "", 300, b"",
+              prelude.Color.BLUE, "zq", 77],
+}
+WIDE_STRUCTS = [
+    None, ty.Cls(int), ty.Cls(str), ty.Cls(prelude.A), ty.List(ty.Cls(int)), ty.VarTuple(ty.Cls(int)),
+    ty.Tuple(ty.Cls(int), ty.Cls(str)), ty.Dict(ty.Cls(str), ty.Cls(int)), ty.Set(ty.Cls(int)),
+    ty.FrozenSet(ty.Cls(int)), SPECIAL[0], ty.Seq(ty.Cls(str)), ty.Map(ty.Cls(str), ty.Cls(int)),
+    ty.TypeOf(ty.Cls(prelude.A)), ty.Tuple(),
+]
+WIDE_SIZES = (3, 9, 10, 11, 14)
+WIDE_PLACEMENTS = ("front", "back", "split")
+
+
+def _lit_or_none(v) -> Ty:
+    return ty.NONE if v is None else ty.Lit(v)
+
+
+def wide_union(group, reverse: bool, placement: str, size: int, family: str, struct, struct_front: bool, merged: bool):
+    g = [ty.Lit(v) for v in (group[::-1] if reverse else group)]
+    n_fill = size - len(g) - (0 if struct is None else 1)
+    if n_fill < 0:
+        return None
+    fill = [_lit_or_none(v) for v in FILLER_FAMILIES[family][:n_fill]]
+    if placement == "front":
+        lits = g + fill
+    elif placement == "back":
+        lits = fill + g
+    else:
+        lits = g[:1] + fill + g[1:]
+    members = lits if struct is None else ([struct] + lits if struct_front else lits + [struct])
+    t = ty.UnionOf(members, merged)
+    return t if t.kind == "Union" and _ok(t) else None
+
+
+def wide_union_space() -> list:
+    """The whole parameter space, as argument tuples of wide_union (deterministic order)."""
+    out = []
+    for group in COLLIDING_GROUPS:
+        for reverse in ((False, True) if group else (False,)):
+            for placement in (WIDE_PLACEMENTS if group else ("front",)):
+                for size in WIDE_SIZES:
+                    for family in FILLER_FAMILIES:
+                        for struct in WIDE_STRUCTS:
+                            for struct_front in ((False, True) if struct is not None else (False,)):
+                                for merged in (False, True):
+                                    out.append((group, reverse, placement, size, family, struct, struct_front, merged))
+    return out
+
+
+def wide_unions_core() -> list:
+    """Seed-independent part: every colliding group in both orders x sizes just below / at / above 10 x placements
+    (no structural member), and every structural member x the same sizes x two filler families."""
+    out, seen = [], set()
+
+    def add(*args):
+        t = wide_union(*args)
+        if t is not None and ty.render(t) not in seen:
+            seen.add(ty.render(t))
+            out.append(t)
+
+    i = 0
+    for group in COLLIDING_GROUPS:
+        for reverse in ((False, True) if group else (False,)):
+            for size in (9, 10, 13):
+                for placement in (("front", "split") if group else ("front",)):
+                    i += 1
+                    add(group, reverse, placement, size, ("ints", "mixed", "strs")[i % 3], None, False, bool(i % 2))
+    for struct in WIDE_STRUCTS[1:]:
+        for size in (9, 10, 13):
+            i += 1
+            add(COLLIDING_GROUPS[i % len(COLLIDING_GROUPS)], False, "front", size, ("ints", "mixed")[i % 2], struct,
+                bool((i // 2) % 2), bool(i % 2))
+    return out
+
+
+def wide_unions(rng, n_sampled: int) -> list:
+    out = wide_unions_core()
+    seen = {ty.render(t) for t in out}
+    space = wide_union_space()
+    for args in rng.sample(space, min(len(space), 3 * n_sampled)):
+        if n_sampled <= 0:
+            break
+        t = wide_union(*args)
+        if t is not None and ty.render(t) not in seen:
+            seen.add(ty.render(t))
+            out.append(t)
+            n_sampled -= 1
+    return out
+
+
+# ---------------------------------------------------------------------------
+# user-defined generic classes of the prelude, specialised over a small atom set
+
+GEN_ATOMS = [ty.Cls(int), ty.Cls(str), ty.Cls(float), ty.Cls(bool)]
+
+
+def generic_terms() -> list:
+    out = []
+    for cls, views in ty.GEN_VIEWS.items():
+        for args in itertools.product(GEN_ATOMS, repeat=len(views)):
+            out.append(ty.Gen(cls, *args))
+    # arguments that are themselves structured
+    out.append(ty.Gen(prelude.GPair, ty.List(ty.Cls(int)), ty.Union(ty.Cls(int), ty.NONE)))
+    out.append(ty.Gen(prelude.GBox, ty.List(ty.Cls(int))))
+    out.append(ty.Gen(prelude.GBox, ty.List(ty.Cls(str))))
+    out.append(ty.Gen(prelude.GBox, ty.Gen(prelude.GBox, ty.Cls(int))))
+    return out
